@@ -5,6 +5,7 @@ import (
 	"bytes"
 	"encoding/gob"
 	"fmt"
+	"github.com/RoaringBitmap/roaring"
 	"os"
 	"strings"
 	"testing"
@@ -44,11 +45,12 @@ const (
 	DTruncBitmap   // Arg% of the 'V' values truncated to half
 	DHugeGarbage   // one 'V' value replaced by > 64 KiB of junk (wrong cookie)
 	DZeroSchema    // 'S' = zero bytes (as many as before, or Arg%9 of them)
+	DOrphanBitmap  // an extra 'V' entry under a key no schema value has: garbage (Arg even) or a valid bitmap (Arg odd)
 	nDamage
 )
 
 var damageName = []string{"none", "missing-path", "zero-bytes", "empty-db", "other-bucket", "del-bucket", "del-schema", "empty-schema",
-	"trunc-schema", "flip-schema", "garbage-schema", "del-counter", "short-counter", "long-counter", "garbage-bitmap", "empty-bitmap", "trunc-bitmap", "huge-garbage-bitmap", "zero-schema"}
+	"trunc-schema", "flip-schema", "garbage-schema", "del-counter", "short-counter", "long-counter", "garbage-bitmap", "empty-bitmap", "trunc-bitmap", "huge-garbage-bitmap", "zero-schema", "orphan-bitmap"}
 
 type Damage struct {
 	Kind int
@@ -142,6 +144,17 @@ func apply(dir string, rows []model.Row, c *Case) (path string, ex expect, err e
 				return b.Put([]byte("S"), s)
 			case DGarbageSchema:
 				return b.Put([]byte("S"), bytes.Repeat([]byte{0xff, 0x00, 0x7f, byte(dm.Arg)}, 5))
+			case DOrphanBitmap:
+				key := []byte{'V', 0xfe, 0xed, byte(dm.Arg), byte(dm.Arg >> 8), 0x5a, 0xa5, 0x01, 0x02}
+				if dm.Arg%4 >= 2 {
+					key[1] = 0x00 // sorts before every real entry
+				}
+				val := []byte{0xde, 0xad, 0xbe, 0xef, 9, 9, 9, byte(dm.Arg)}
+				if dm.Arg%2 == 1 {
+					bm := roaring.BitmapOf(1, 2, 3)
+					val, _ = bm.ToBytes()
+				}
+				return b.Put(key, val)
 			case DZeroSchema:
 				n := len(b.Get([]byte("S")))
 				if dm.Arg%2 == 1 {
@@ -339,7 +352,7 @@ func oracle(c *Case) error {
 			// truncated or bit-flipped payloads are decoded lazily by the bitmap
 			// library and reading them can fault the whole process (outside
 			// what C15 states); only clearly undecodable payloads are queried
-			if dm.Kind != DGarbageBitmap && dm.Kind != DEmptyBitmap && dm.Kind != DHugeGarbage {
+			if dm.Kind != DGarbageBitmap && dm.Kind != DEmptyBitmap && dm.Kind != DHugeGarbage && dm.Kind != DOrphanBitmap {
 				queryable = false
 			}
 		}
@@ -526,8 +539,13 @@ func systematic(t *testing.T) {
 // (at position p in key order) is replaced by garbage; preloading must fail
 // for every p.  quick: positions around the multiples of 1000 plus a stride;
 // thorough: every position.
-func singleDamageSweep(t *testing.T, all bool) {
-	spec := gen.DataSpec{Recipe: &gen.Recipe{N: 2200, Cols: []gen.ColSpec{{Name: "u", Prefix: "r", Kind: gen.KUnique}, {Name: "a", Kind: gen.KMod, K: 7}}}}
+func singleDamageSweep(t *testing.T, all bool) { singleDamageSweepN(t, all, 2200) }
+
+// singleDamageSweepN with n > 60000 only damages a handful of positions (the
+// first, around 65,536 from either end, the middle, the last) of an index with
+// tens of thousands of bitmaps.
+func singleDamageSweepN(t *testing.T, all bool, n int) {
+	spec := gen.DataSpec{Recipe: &gen.Recipe{N: n, Cols: []gen.ColSpec{{Name: "u", Prefix: "r", Kind: gen.KUnique}, {Name: "a", Kind: gen.KMod, K: 7}}}}
 	dir := fix.CaseDir()
 	defer os.RemoveAll(dir)
 	base, _, err := fix.Build(dir, spec.Rows(), fix.WMemFile)
@@ -551,7 +569,13 @@ func singleDamageSweep(t *testing.T, all bool) {
 	tested := 0
 	for p := range keys {
 		near := p%1000 <= 2 || p%1000 >= 998 || p%256 <= 1 || p == len(keys)-1
-		if !all && !near && p%97 != 0 {
+		if n > 60000 {
+			k := len(keys)
+			near = false
+			if !(p == 0 || p == 1 || p == 65535 || p == 65536 || p == k-65537 || p == k-65536 || p == k/2 || p == k-1) {
+				continue
+			}
+		} else if !all && !near && p%97 != 0 {
 			continue
 		}
 		if p%nshards != shard {
@@ -591,7 +615,7 @@ func singleDamageSweep(t *testing.T, all bool) {
 		os.Remove(path)
 	}
 	if all {
-		evid.Exhaustive(fmt.Sprintf("a single garbage bitmap at every one of the %d positions of a 2200-row index, opened with preload", len(keys)))
+		evid.Exhaustive(fmt.Sprintf("a single garbage bitmap at every one of the %d positions of a %d-row index, opened with preload", len(keys), n))
 	}
 	evid.Note("single_damage_positions_tested", int64(tested))
 }
@@ -600,6 +624,7 @@ func TestQuick(t *testing.T) {
 	fix.Pinned(t, prop, replay)
 	systematic(t)
 	singleDamageSweep(t, false)
+	singleDamageSweepN(t, false, 70001)
 	fix.Check(t, "open", 600, func(rt *rapid.T) { run(rt, drawCase(rt)) })
 }
 
@@ -609,6 +634,7 @@ func TestThorough(t *testing.T) {
 		systematic(t)
 	}
 	singleDamageSweep(t, true)
+	singleDamageSweepN(t, false, 70001)
 	fix.Check(t, "open", 30000, func(rt *rapid.T) { run(rt, drawCase(rt)) })
 }
 
